@@ -145,11 +145,39 @@ fn rename_rule_variables(rule: &Rule, counter: &mut usize) -> Rule {
     }
 }
 
+/// Rule variables are renamed to `v<counter>`. Returns the first counter value that cannot
+/// produce a name already used by a variable of `pattern`, so that a goal written with
+/// variables called `v0`, `v1`, ... is not captured by the renaming.
+fn first_free_variable_index(pattern: &TriplePattern) -> usize {
+    fn scan(term: &Term, next: &mut usize) {
+        match term {
+            Term::Variable(v) => {
+                if let Some(n) = v.strip_prefix('v').and_then(|digits| digits.parse::<usize>().ok()) {
+                    if n < usize::MAX / 2 {
+                        *next = (*next).max(n + 1);
+                    }
+                }
+            }
+            Term::Constant(_) => {}
+            Term::QuotedTriple(qt) => {
+                scan(&qt.0, next);
+                scan(&qt.1, next);
+                scan(&qt.2, next);
+            }
+        }
+    }
+    let mut next = 0;
+    scan(&pattern.0, &mut next);
+    scan(&pattern.1, &mut next);
+    scan(&pattern.2, &mut next);
+    next
+}
+
 impl Reasoner {
     /// Returns all variable bindings that satisfy `query` via backward chaining.
     pub fn backward_chaining(&self, query: &TriplePattern) -> Vec<HashMap<String, Term>> {
         let bindings = HashMap::new();
-        let mut variable_counter = 0;
+        let mut variable_counter = first_free_variable_index(query);
         self.backward_chaining_helper(query, &bindings, 0, &mut variable_counter)
     }
 
